@@ -249,6 +249,10 @@ pub struct RunSpec {
     /// that the library's thread-locals are registered later and destroyed earlier.
     #[serde(default)]
     pub exit_list_first: bool,
+    /// F12: non-zero = seed of this run's environment perturbation plan (what `getenv`
+    /// answers to the library inside calls); 0 = the real environment.
+    #[serde(default)]
+    pub env_plan: u64,
 }
 
 impl RunSpec {
@@ -332,6 +336,12 @@ pub struct RunRecord {
     pub panicking_calls: u64,
     #[serde(default)]
     pub at_exit_calls: u64,
+    #[serde(default)]
+    pub env_reads: u64,
+    #[serde(default)]
+    pub env_perturbed: u64,
+    #[serde(default)]
+    pub env_keys: Vec<String>,
     /// Dense build only: basic-block edges executed inside library calls, and how many of
     /// them were offered to the scheduler as preemption points.
     #[serde(default)]
